@@ -211,6 +211,64 @@ def run_track(src, cfg, ref):
             "pulled": tap.seen if mode == "tap" else None}
 
 
+# ---- clock-dependent patterns (static.py: PStaticPattern ...): histories of (advance the clock by dt, next()) steps ---------
+UNIT = 32          # clock readings are multiples of 1/32 beat (exact in binary floating point; round(t, 5) is the identity)
+
+
+def make_stub_timeline():
+    class Timeline:                      # Pattern.timeline finds "the" timeline by the class NAME of a `self` on the call stack
+        """stub timeline: a settable clock"""
+        def __init__(self):
+            self.current_time = 0.0
+            self.ticks_per_beat = UNIT
+            self.tick_duration = 1.0 / UNIT
+
+        def advance(self, units):
+            self.current_time = (round(self.current_time * UNIT) + units) / UNIT
+
+        def poll(self, p):
+            return observe(lambda: next(p))
+    return Timeline()
+
+
+def make_real_timeline(tpb):
+    class Timeline(iso.Timeline):
+        def advance(self, units):
+            for _ in range(units * (tpb // UNIT)):
+                self.tick()
+
+        def poll(self, p):
+            return observe(lambda: next(p))
+    tl = Timeline(120, output_device=Rec(), clock_source=iso.DummyClock(ticks_per_beat=tpb))
+    tl.stop_when_done = False
+    return tl
+
+
+def run_clocked(case):
+    """case: {"src", "inner": [sources whose plain next() values are wanted], "timeline": "stub" | tpb, "t0": units,
+    "steps": [dt in units ...], "track": cfg | None}"""
+    out = {"status": None}
+    signal.setitimer(signal.ITIMER_REAL, OP_TIMEOUT * 4)
+    try:
+        out["inner"] = [run_ops(src, [["next", 0]] * 40) for src in case.get("inner", [])]
+        p, o = build(case["src"])
+        obs = [o]
+        if p is not None and isinstance(p, iso.Pattern):
+            tl = make_stub_timeline() if case["timeline"] == "stub" else make_real_timeline(case["timeline"])
+            tl.advance(case["t0"])
+            for dt in case["steps"]:
+                tl.advance(dt)
+                obs.append(tl.poll(p))
+        out["obs"] = obs
+        if case.get("track") is not None:
+            out["track"] = run_track(case["src"], case["track"], [None] + [{"y": 60}])
+    except Timeout:
+        out["status"] = "timeout"
+    finally:
+        signal.setitimer(signal.ITIMER_REAL, 0)
+    return out
+
+
 def run_case(case):
     out = {"status": None}
     signal.setitimer(signal.ITIMER_REAL, OP_TIMEOUT * 2)
@@ -268,7 +326,7 @@ def main():
     saved = (dict(Scale.dict), dict(Chord.dict), dict(Globals.dict))
     out = []
     for case in req["cases"]:
-        out.append(run_case(case))
+        out.append(run_clocked(case["clocked"]) if "clocked" in case else run_case(case))
         for d, s in zip((Scale.dict, Chord.dict, Globals.dict), saved):
             if d != s:
                 d.clear(); d.update(s)
